@@ -268,7 +268,19 @@ func flagsConsistent(d *tensor.Dense) (s string) {
 				for i := 0; i < r; i++ {
 					for j := 0; j < c; j++ {
 						v, _ := d.At(i, j)
-						if valTok(m.At(i, j)) != valTok(v) {
+						rv := reflect.ValueOf(v)
+						var want float64
+						switch {
+						case rv.CanFloat():
+							want = rv.Float()
+						case rv.CanInt():
+							want = float64(rv.Int())
+						case rv.CanUint():
+							want = float64(rv.Uint())
+						default:
+							continue
+						}
+						if got := m.At(i, j); got != want && !(got != got && want != want) {
 							return "differs"
 						}
 					}
